@@ -147,9 +147,9 @@ func genHostileCall(rt *rapid.T) (string, []json.RawMessage) {
 		}
 		body = r
 	case "vipnode_peer":
-		body = pool.PeerRequest{Num: rapid.SampledFrom([]int{-1 << 31, -7, -1, 0, 1, 3, 1 << 30}).Draw(rt, "num"), Kind: genText(rt, "kind")}
+		body = pool.PeerRequest{Num: rapid.SampledFrom([]int{-1 << 63, -1 << 31, -7, -1, 0, 1, 3, 1 << 30, 1 << 62, 1<<63 - 1, 1<<63 - 2}).Draw(rt, "num"), Kind: genText(rt, "kind")}
 	case "vipnode_client":
-		body = pool.ClientRequest{Kind: genText(rt, "kind"), NumHosts: rapid.SampledFrom([]int{-1 << 31, -1, 0, 1, 1 << 30}).Draw(rt, "numHosts")}
+		body = pool.ClientRequest{Kind: genText(rt, "kind"), NumHosts: rapid.SampledFrom([]int{-1 << 63, -1 << 31, -1, 0, 1, 1 << 30, 1<<63 - 1, 1<<63 - 2}).Draw(rt, "numHosts")}
 	case "vipnode_host":
 		body = pool.HostRequest{Kind: genText(rt, "kind"), Payout: genIdentity(rt), NodeURI: genURI(rt)}
 	}
@@ -202,8 +202,11 @@ func genHostileCall(rt *rapid.T) (string, []json.RawMessage) {
 // is cut off, which takes the pool through its low-balance / disconnect path).
 var c15MinBalance int64 = -1000000
 
+// c15Driver: the store driver of the next C15 session (drawn by the structured test).
+var c15Driver = "memory"
+
 func c15Session(rt interface{ Fatalf(string, ...interface{}) }) (*session, *safeHandler) {
-	cfg := sessCfg{Driver: "memory", Price: big.NewInt(1000), Interval: time.Minute, Min: big.NewInt(c15MinBalance)}
+	cfg := sessCfg{Driver: c15Driver, Price: big.NewInt(1000), Interval: time.Minute, Min: big.NewInt(c15MinBalance)}
 	s := newSession(rt, cfg, 4)
 	sh := &safeHandler{Handler: s.srv}
 	// reconnect helper: all connections of this session go through the panic-recording handler
@@ -276,6 +279,8 @@ var c15Nonce = func(string) int64 { return time.Now().UnixNano() }
 func c15StructuredCase(rt *rapid.T, rec *vt.Rec) {
 	c15MinBalance = rapid.SampledFrom([]int64{-1000000, -1000000, 0}).Draw(rt, "minBalance")
 	defer func() { c15MinBalance = -1000000 }()
+	c15Driver = rapid.SampledFrom([]string{"memory", "memory", "badger"}).Draw(rt, "driver")
+	defer func() { c15Driver = "memory" }()
 	s, sh := c15Session(rt)
 	c15Nonce = s.nonce
 	defer func() { c15Nonce = func(string) int64 { return time.Now().UnixNano() } }()
